@@ -272,11 +272,17 @@ function genTrace(spec, seed, bridge, run) {
       return out;
     };
     const have = new Set(types.filter(Boolean));
-    const cands = spec.methods.filter((m) => needs(m).every((t) => have.has(t)));
+    // usually a method is only called when every opaque input can be a *different* object (one object playing two
+    // inputs is kept alive by either edge, which hides a missing one); sometimes sharing is allowed on purpose
+    const count = (arr) => { const c = new Map(); for (const t of arr) c.set(t, (c.get(t) || 0) + 1); return c; };
+    const haveN = count(types.filter(Boolean));
+    const distinctOk = (m) => { const c = count(needs(m)); for (const [t, k] of c) if ((haveN.get(t) || 0) < Math.min(k, NSLOT - 1)) return false; return true; };
+    const strict = rng.chance(3, 4);
+    const cands = spec.methods.filter((m) => (strict ? distinctOk(m) : needs(m).every((t) => have.has(t))));
     if (!cands.length || rng.chance(1, 4)) {
       // something some method is still waiting for, if anything; else any opaque
       const missing = [];
-      for (const m of spec.methods) for (const t of needs(m)) if (!have.has(t)) missing.push(t);
+      for (const m of spec.methods) { const c = count(needs(m)); for (const [t, k] of c) for (let q = haveN.get(t) || 0; q < Math.min(k, NSLOT - 1); q++) missing.push(t); }
       const tname = missing.length && rng.chance(3, 4) ? rng.pick(missing) : rng.pick(spec.opaques).name;
       ops.push({ op: "mk", type: tname, dst });
       types[dst] = tname; continue;
